@@ -40,7 +40,7 @@ CLAIMS = {
         "the bit-equality rescan trigger is sound; HighestIndex / LowestIndex return the age of the NEWEST extremal element (an element "
         "numerically extremal with everything newer strictly worse - unique), on the fast path and in the rescan. All selection methods (incl. delta, arg-extrema, SMM, median in MedianAbsDev) are "
         "compared exactly with the model and with from-scratch selections on tie-rich streams.",
-   note=COMMON_NOTE + "SMM: the sorted slice is the ascending sort of the window after every stream (binary searches, in-place shift), for the total order of the representation. PARTIAL: HighestLowestDelta validated only. f64::max/min tie behaviour on ±0 "
+   note=COMMON_NOTE + "SMM: the sorted slice is the ascending sort of the window after every stream (binary searches, in-place shift), for the total order of the representation. HighestLowestDelta: highest − lowest of the same selections (theorem). f64::max/min tie behaviour on ±0 "
         "is hardware-defined: outputs compared numerically as the property allows.",
    ref="DESIGN.md §5 C04"),
  "C14": dict(cat="proof", tech="Lean 4 proofs (definitional characterisation, antisymmetry) + exact differential replay",
@@ -60,7 +60,8 @@ CLAIMS = {
         "is proved consistent with equality except on (Buy 0, Sell 0), where the negation is proved. The Rust code is enumerated "
         "exhaustively (all i8, all actions, all pairs; thorough: all 2^32 f32 patterns with every step of the quantiser validated "
         "by the bit-level model) and f64 at every bisected transition point.",
-   note=COMMON_NOTE + "PARTIAL: monotonicity of the f64 conversion is validated (transition points + f32 sweep), not proved. "
+   note=COMMON_NOTE + "Monotonicity of the f64 conversion is proved on the bit level (every pair of non-NaN patterns in float order: the rounded product is monotone within a binade, "
+        "across the 2^60 rounding-shift boundary and across binades) and for the rational model with any monotone rounding; PARTIAL: the f32 conversion's monotonicity is validated by the full 2^32 sweep, not proved. "
         "Known finding: Ord inconsistent with Eq on Buy(0)/Sell(0).",
    ref="DESIGN.md §5 C16"),
  "C18": dict(cat="proof", tech="Lean 4 algebraic proofs in an arbitrary linear ordered field + string-function proofs + differential replay",
@@ -102,8 +103,8 @@ CLAIMS = {
         "windowed sum n*v, EMA/DMA/TMA v, DEMA/TEMA reproduce the constant exactly, Highest/Lowest return the value itself, "
         "crossings stay silent. The real code: every method type and every indicator (several configurations, flat/ranged/"
         "zero-volume candles) is fed 700-2000 copies of its first input and streams with extra leading copies.",
-   note=COMMON_NOTE + NUM_NOTE + "PARTIAL: the theorems transfer to the model only where a model=spec theorem exists (C02-C04); "
-        "indicators are covered by the run, not by theorems. Known findings: HullMovingAverage pivot noise, TrendStrengthIndex start.",
+   note=COMMON_NOTE + NUM_NOTE + "Every method of C02-C04 has its model=spec theorem, so the spec theorems transfer; every moving-average kind reproduces a constant exactly "
+        "(hull theorems of C15 with lo = hi = v; HMA / LinReg by affine equivariance with a = 0). PARTIAL: indicators are covered by the run, not by theorems. Known findings: HullMovingAverage pivot noise, TrendStrengthIndex start.",
    ref="DESIGN.md §5 C08"),
  "C10": dict(cat="proof", tech="Lean 4 totality proofs of the constructors over the whole PeriodType domain + exhaustive enumeration of the parameter domain on the real code (debug and release builds)",
    text="Theorems for every maximum P>=2 and EVERY parameter value 0..=P (every pair for two-parameter methods): the constructors of "
@@ -111,7 +112,7 @@ CLAIMS = {
         "documented too-small lengths and on PeriodType::MAX. On the real code all 256 lengths of all 35 methods (pairs for "
         "two-parameter ones) must give the model's Ok/Err/kind, in debug and release builds; every indicator parameter is swept "
         "(all 256 values, all MA kinds, NaN/inf/negative numerics) and accepted instances are driven with valid candles.",
-   note=COMMON_NOTE + "PARTIAL: indicator init()/validate() are enumerated on the real code, not modelled; 'accepted instances never panic' "
+   note=COMMON_NOTE + "Indicator init()/validate() are part of the 36 indicator models and the init result kind (Ok / WrongConfig / method error) is compared for every generated configuration incl. boundary values (class ind-init); PARTIAL: 'accepted instances never panic' "
         "is a theorem only for the methods with a full run theorem (C02-C04, C14, C17). Known finding: CoppockCurve on zero volume.",
    ref="DESIGN.md §5 C10"),
  "C11": dict(cat="proof", tech="translator (source -> Lean table, regenerated every run) + decide over the table + Rust-vs-Rust interface differential run",
@@ -161,8 +162,8 @@ CLAIMS = {
         "the values given (the smoothing constants are proved to lie in (0,1]), reproduce constants, and WMA's impulse response is the "
         "documented 2(n-age)/(n(n+1)). All 15 MA kinds plus Conv and VWMA are checked on the real code by metamorphic relations "
         "(x vs a*x+b, x,y vs x+y, hull incl. flat/scale-jump regimes, impulse responses) and against their weight-profile specs.",
-   note=COMMON_NOTE + NUM_NOTE + "PARTIAL: SWMA, TRIMA, HMA, LinReg, SMM, Vidya, VWMA, Conv have the laws checked metamorphically and via "
-        "spec comparison only. Known finding: Vidya leaves the hull (residue).",
+   note=COMMON_NOTE + NUM_NOTE + "Every kind has its theorems (for the from-scratch specs the machines equal by C02-C04). PARTIAL only with respect to floats. "
+        "Known finding: Vidya leaves the hull (residue).",
    ref="DESIGN.md §5 C15"),
 
  "C05": dict(cat="proof", tech="Lean 4 proofs about hand-written indicator models (composition of realised averages / extremum trackers, invariants lifted over candle lists) + per-step differential replay of every indicator value under the rounding allowance",
